@@ -12,6 +12,10 @@ OUT = '/verif/mutants'
 
 # (name, properties, tier, file, old, new, comment)
 CAT = [
+    ('m_c09_disconnect_callback_unprotected', 'C09', 'quick', 'txdbus/client.py',
+     "            try:\n                cb(self, reason)\n            except BaseException:\n                log.err()\n",
+     "            cb(self, reason)\n",
+     'a raising disconnect callback aborts connectionLost: calls stay pending, the rest is not told (the original defect)'),
     ('m_c08_serial_never_wraps', 'C08', 'quick', 'txdbus/message.py',
      "            if DBusMessage._nextSerial > 0xFFFFFFFF:\n",
      "            if DBusMessage._nextSerial > 0xFFFFFFFFFFFF:\n",
